@@ -99,8 +99,18 @@ def check(run: Run) -> None:
                 if bind:
                     v = subst(v, bind)
                 dep_old = contains(v, lambda s: s == ("attr", cur, ATTR))
+                nothing_carried = False
+                if not dep_old:
+                    # .. unless this store stands where the replaced node is known to carry nothing
+                    for a_, pol_ in Facts(f2, n).atoms:
+                        if (not pol_) and isinstance(a_, ast.Call) and isinstance(a_.func, ast.Name) and a_.func.id == "hasattr" and len(a_.args) == 2 and isinstance(a_.args[1], ast.Constant) and a_.args[1].value == ATTR and f2.cfg.has_node(a_.args[0]):
+                            at_ = strip_sites(f2.term_of(a_.args[0]))
+                            if bind:
+                                at_ = subst(at_, bind)
+                            if at_ == cur:
+                                dep_old = nothing_carried = True
                 run.check(dep_old, "C16.R2", fi, n, "stored dictionary depends on the replaced node's _q_metadata", "the dictionary stored on the copied node is built from the new keys only: metadata carried by the node it replaces (set by the preceding QMetaData call) is dropped", "{**getattr(base_ast, '_q_metadata', {}), **q_metadata}", show(v))
-                if dep_old and v[0] == "dict":
+                if dep_old and v[0] == "dict" and not nothing_carried:
                     # .. all of it: spread whole, or filtered by nothing but the keys that are stored again
                     inh = ("attr", cur, ATTR)
                     spreads = [val_ for k_, val_ in v[1] if k_ == ("const", "**")]
